@@ -31,14 +31,16 @@ def _announce_sites(ctx, fn) -> T.List[ast.Call]:
     out = []
     for s in ctx.effects.sites[fn.fq]:
         if s.effect in ("ECHO", "LOG") and isinstance(s.node, ast.Call) and s.node.args:
-            a = s.node.args[0]
-            head = None
-            if isinstance(a, ast.JoinedStr) and a.values and isinstance(a.values[0], ast.Constant):
-                head = a.values[0].value
-            elif isinstance(a, ast.Constant) and isinstance(a.value, str):
-                head = a.value
-            if head is not None and head.strip().lower().startswith(("new version", "pep440")):
-                out.append(s.node)
+            # what the call may print: its argument, or the lines collected in a list that it walks
+            for a in shapes.printed_texts(fn, s.node):
+                head = None
+                if isinstance(a, ast.JoinedStr) and a.values and isinstance(a.values[0], ast.Constant):
+                    head = a.values[0].value
+                elif isinstance(a, ast.Constant) and isinstance(a.value, str):
+                    head = a.value
+                if head is not None and isinstance(head, str) and head.strip().lower().startswith(("new version", "pep440")):
+                    out.append(s.node)
+                    break
     return out
 
 
